@@ -517,7 +517,7 @@ func jsonAssign(fr *frame, T types.Type, dst *value, node interface{}, top bool)
 	}
 	// custom unmarshaller on *T
 	if _, isIface := T.Underlying().(*types.Interface); !isIface {
-		if m := findMethod(fr, types.NewPointer(T), "UnmarshalJSON"); m != nil {
+		if m := findMethod(fr, ptrTo(T), "UnmarshalJSON"); m != nil {
 			if node == nil {
 				if _, isPtr := T.Underlying().(*types.Pointer); isPtr {
 					*dst = zero(T)
